@@ -6,6 +6,9 @@
 //	    r:<METHOD>:<tmpl>:<wireName>:<id>:<body>:<num>:<file>  raw HTTP request (path pieces already escaped);
 //	                                                           body = content t|f|b|e + framing l|c + headers 0-3
 //	    c:<op>:<name>:<id|index>                               call of the bundled Go client
+//	    x:<mb>:<k>                                             the content file of message k vanishes (file store)
+//	    y:<tmpl>:<mb>:<k>:<body>                               a GET racing with a removal of message k that completes
+//	                                                           between the manager's look-up and its open
 //	=> one token per op, the store afterwards (D=…), the observed naming function (M=…)
 //
 // Every case stands up the real router (webui + rest routes, web.NewServer) behind a real
@@ -117,9 +120,32 @@ func (r *recMgr) MailboxForAddress(a string) (string, error) {
 	return s, err
 }
 
+// ---------------------------------------------------------------- a removal racing with a look-up
+
+// raceStore is the storage.Store the StoreManager sees. When armed for (mailbox, id) it lets GetMessage find
+// that message and then removes it — completely — before handing it back, i.e. before the manager opens the
+// content: the interleaving "another client's removal completes between look-up and open" (no lock is held
+// across that window in the file store).
+type raceStore struct {
+	storage.Store
+	armedMb, armedID string
+	armed            bool
+}
+
+func (r *raceStore) GetMessage(mb, id string) (storage.Message, error) {
+	m, err := r.Store.GetMessage(mb, id)
+	if err == nil && m != nil && r.armed && m.Mailbox() == r.armedMb && m.ID() == r.armedID {
+		r.armed = false
+		_ = r.Store.RemoveMessage(m.Mailbox(), m.ID())
+	}
+	return m, err
+}
+
 // ---------------------------------------------------------------- one case
 
 type env struct {
+	race    *raceStore
+	dir     string
 	store   storage.Store
 	mgr     *recMgr
 	srv     *httptest.Server
@@ -538,6 +564,29 @@ func (e *env) doClient(parts []string) string {
 	return "BADOP"
 }
 
+// doVanish: the content file of message k of a mailbox disappears from the file store's disk
+// (x:<mb>:<k>); the memory store has nothing to lose.
+func (e *env) doVanish(parts []string) string {
+	mb, k := f(parts[1]), vh.AtoI(parts[2])
+	if e.dir == "" || k >= len(e.ids[mb]) {
+		return "X"
+	}
+	h := stringutil.HashMailboxName(mb)
+	_ = os.Remove(filepath.Join(e.dir, "mail", h[0:3], h[0:6], h, e.ids[mb][k]+".raw"))
+	return "X"
+}
+
+// doRace: y:<tmpl>:<mb>:<k>:<body> — a GET of template tmpl for message k of mb while another client's
+// removal of that message completes between the manager's look-up and its opening of the content.
+func (e *env) doRace(parts []string) string {
+	mb, k := f(parts[2]), vh.AtoI(parts[3])
+	if k < len(e.ids[mb]) {
+		e.race.armedMb, e.race.armedID, e.race.armed = mb, e.ids[mb][k], true
+	}
+	defer func() { e.race.armed = false }()
+	return e.doRaw([]string{"r", "GET", parts[1], vh.HS(url.QueryEscape(mb)), vh.HS("k" + strconv.Itoa(k)), parts[4], vh.HS("0"), vh.HS("a.bin")})
+}
+
 func (e *env) doAdd(parts []string) string {
 	mb, date, tag := f(parts[1]), int64(vh.AtoI(parts[2])), vh.AtoI(parts[3])
 	raw := buildRaw(tag)
@@ -628,7 +677,8 @@ func runHist(in []string) []string {
 	if err != nil {
 		return []string{"STOREERR", vh.HS(err.Error())}
 	}
-	mgr := &recMgr{Manager: &message.StoreManager{AddrPolicy: &policy.Addressing{Config: conf}, Store: st, ExtHost: extHost}}
+	race := &raceStore{Store: st}
+	mgr := &recMgr{Manager: &message.StoreManager{AddrPolicy: &policy.Addressing{Config: conf}, Store: race, ExtHost: extHost}}
 
 	// the router is a package global: assemble it the way server.FullAssembly does
 	web.Router = mux.NewRouter()
@@ -641,7 +691,7 @@ func runHist(in []string) []string {
 	srv.Start()
 	defer srv.Close()
 
-	e := &env{store: st, mgr: mgr, srv: srv, ids: map[string][]string{}, rev: map[string]map[string]int{}}
+	e := &env{race: race, dir: dir, store: st, mgr: mgr, srv: srv, ids: map[string][]string{}, rev: map[string]map[string]int{}}
 	for _, s := range strings.Split(base, "/") {
 		if s != "" {
 			e.baseSeg = append(e.baseSeg, s)
@@ -663,6 +713,10 @@ func runHist(in []string) []string {
 				outs = append(outs, e.doRaw(parts))
 			case "c":
 				outs = append(outs, e.doClient(parts))
+			case "x":
+				outs = append(outs, e.doVanish(parts))
+			case "y":
+				outs = append(outs, e.doRace(parts))
 			default:
 				outs = append(outs, "BADOP")
 			}
